@@ -178,3 +178,28 @@ func replaceRoot(s string) string {
 	}
 	return s
 }
+
+var _ = reg("C01_SeqPredicates", C01_SeqPredicates)
+
+var seqPredPaths = []string{
+	"$.**{1} ? (@[*] > 1)", "$.** ? (@[*] > 1)", "$.* ? (@[*] > 1)", "$[*] ? (@[*] > 1)", "$.**{1} ? ((@[*] > 1) is unknown)",
+	"$.**{1} ? (@[*] starts with \"a\")", "$.**{1} ? (@[*] like_regex \"^a\")", "$.**{1} ? (@[*] == @[*])", "$.a[*] > 1", "$.**{1}[*] > 1",
+	"$.**{1} ? (exists(@[*] ? (@ > 1)))", "$.**{1} ? (!(@[*] > 1))", "$.**{0 to 1} ? (@[*] >= 1 && @[*] < 1)",
+}
+
+// C01_SeqPredicates: predicates whose operands are sequences of two items of
+// mixed kinds, directly and below wildcards and .**: in lax mode some pair
+// satisfies; in strict mode any incomparable pair makes the predicate
+// unknown - also below .**, where only structural errors are skipped.
+func C01_SeqPredicates() {
+	src := modePrefix() + seqPredPaths[nd.Choice(len(seqPredPaths))]
+	leaf := nd.Spec{Kinds: nd.KNull | nd.KFloat | nd.KString, StrLen: 1, ASCII: true}
+	arr := []any{nd.JSON(leaf), nd.JSON(leaf)}
+	var doc any
+	if nd.Choice(2) == 0 {
+		doc = map[string]any{"a": arr}
+	} else {
+		doc = []any{arr}
+	}
+	conform("C01/seq "+src, src, doc, nil)
+}
